@@ -3,6 +3,7 @@ package core
 import (
 	"fmt"
 	"go/ast"
+	"go/token"
 	"go/types"
 	"strings"
 )
@@ -222,5 +223,92 @@ func (ca CallArgs) Check(r *Run) {
 	ast.Inspect(f.Body(), visit)
 	if n < ca.Min {
 		r.Fail(fmt.Sprintf("%s calls of %s", f.Name, strings.Join(ca.Callee, "|")), r.W.Pos(f.Node().Pos()), fmt.Sprintf("expected ≥%d calls, found %d", ca.Min, n))
+	}
+}
+
+// HasAtom requires a live condition atom in Fn that tests exactly the relation
+// `L rel R` (any orientation; a test of the complementary relation is the same
+// test).  It pins comparison boundaries that dominance rules accept loosely.
+type HasAtom struct {
+	Fn   string
+	Spec *FlowSpec
+	Name string
+	L, R ExprPred
+	Rel  token.Token
+}
+
+func (h HasAtom) Check(r *Run) {
+	f := r.Fn(h.Fn)
+	if f == nil {
+		return
+	}
+	spec := h.Spec
+	if spec == nil {
+		spec = &FlowSpec{}
+	}
+	fl := RunFlow(f, spec)
+	label := fmt.Sprintf("%s tests %s", f.Name, h.Name)
+	var near []string
+	for _, n := range fl.G.Nodes {
+		if !fl.Live(n) {
+			continue
+		}
+		for _, e := range n.Succ {
+			if e.Cond == nil || !e.Val {
+				continue
+			}
+			cond := e.Cond
+			if e.Tag != nil {
+				cond = &ast.BinaryExpr{X: e.Tag, Op: token.EQL, Y: e.Cond}
+			}
+			found := false
+			walkAtoms(cond, func(a ast.Expr) {
+				op, ok := CmpAtom(fl.C, a, h.L, h.R)
+				if !ok {
+					return
+				}
+				if op == h.Rel || negRel[op] == h.Rel {
+					found = true
+					r.OK(label, r.W.Pos(a.Pos()), fmt.Sprintf("atom `%s` tests the required boundary", ExprStr(a)))
+				} else {
+					near = append(near, fmt.Sprintf("%s: `%s` tests %s/%s", r.W.Pos(a.Pos()), ExprStr(a), op, negRel[op]))
+				}
+			})
+			if found {
+				return
+			}
+		}
+	}
+	// returned comparisons count as tests too
+	for _, n := range fl.G.Returns() {
+		rs, ok := n.Ast.(*ast.ReturnStmt)
+		if !ok {
+			continue
+		}
+		for _, res := range rs.Results {
+			found := false
+			walkAtoms(res, func(a ast.Expr) {
+				if op, ok := CmpAtom(fl.C, a, h.L, h.R); ok && (op == h.Rel || negRel[op] == h.Rel) {
+					found = true
+				}
+			})
+			if found {
+				r.OK(label, r.W.Pos(rs.Pos()), "returned comparison tests the required boundary")
+				return
+			}
+		}
+	}
+	why := "no comparison between the required operands"
+	if len(near) > 0 {
+		why = fmt.Sprintf("required boundary %s, found %s", h.Rel, strings.Join(near, "; "))
+	}
+	r.Fail(label, r.W.Pos(f.Node().Pos()), why)
+}
+
+// MinusOne holds for `X - 1` with p(X).
+func MinusOne(p ExprPred) ExprPred {
+	return func(c *Ctx, e ast.Expr) bool {
+		b, ok := ast.Unparen(e).(*ast.BinaryExpr)
+		return ok && b.Op == token.SUB && IsConstInt(1)(c, b.Y) && p(c, b.X)
 	}
 }
